@@ -414,6 +414,19 @@ uid_t geteuid(void) {
     if (g_in_expansion) note_fs("call:geteuid");
     return g_have_uid ? (uid_t)g_uid : (uid_t)syscall(SYS_geteuid);
 }
+pid_t getppid(void) {
+    init();
+    if (g_in_expansion) note_fs("call:getppid");
+    return g_have_pid ? (pid_t)(g_pid / 2 + 1) : (pid_t)syscall(SYS_getppid);
+}
+int isatty(int fd) {
+    init();
+    if (g_in_expansion) note_fs("call:isatty");
+    /* a simulated host's terminal-ness follows its uid seam: odd uid = interactive */
+    if (g_have_uid) { if (g_uid % 2) return 1; errno = ENOTTY; return 0; }
+    int (*real)(int) = REAL("isatty");
+    return real ? real(fd) : 0;
+}
 int sched_getaffinity(pid_t pid, size_t sz, cpu_set_t *set) {
     init();
     if (g_in_expansion) note_fs("call:sched_getaffinity");
